@@ -21,11 +21,51 @@ LEAN_MODULES = ['Glom.Props.C13']
 FACT_FILES = ['C13Facts']
 READY = True
 MANIFEST = dict(
-    text="(filled in below)",
-    note="", technique="", ref='DESIGN.md §3 C13')
-RULE = ''
-TRUSTED = []
-ASSUMPTIONS = []
+    text="Lean 4 theorems about a literal model of TargetRegistry (exact table, ordered type tree with the "
+         "re-parenting insertion loop of _register_fuzzy_type, memo, auto-discovery map, register / "
+         "register_op / get_handler / _get_matching_types / _get_closest_type, Glommer construction): for "
+         "every class hierarchy with coherent isinstance/issubclass/MRO, every set of registries and every "
+         "history of register / register_op calls with lookups interleaved anywhere (induction over the "
+         "operation list, no bound) each registry keeps the tree invariants (keys are superclasses of the "
+         "keys below, sibling keys distinct and unrelated, the tree holds exactly the covering types, every "
+         "node has a handler, the memo holds only current answers) and every lookup returns the handler of "
+         "an allowed type of the memo-free reference semantics (exact registration, else the MRO-nearest "
+         "covering base unless a covering type lies strictly below it, else a minimal matching covering "
+         "type); corollaries c13_exact_wins, c13_nearest(_base/_nominal), c13_never_less_specific, "
+         "c13_covers_subclasses, c13_order_independent_chain, c13_lookup_pure, c13_immediate, c13_isolation, "
+         "c13_default_glommer; per-run facts obligation by `decide` on the registration sequences, decision "
+         "shapes and builtin hierarchy regenerated from /repo; model tied to the code by differential "
+         "execution of real register/get_handler/glom/assign/delete calls against the compiled Lean driver "
+         "(answers, invoked handlers and final tree shapes compared).",
+    note="trusted: Lean kernel + {propext, Classical.choice, Quot.sound}; extractor (extract/facts/c13.py); "
+         "harness/driver; CPython's __mro__/isinstance/issubclass taken as tables per case (their coherence "
+         "is a decidable check, proved sufficient for the theorems' hypotheses; incoherent hierarchies are "
+         "skipped); auto-discovery functions are environment parameters (their results per class are read "
+         "from the implementation; C11/C12 cover them); the iteration order of the set `known_types` in "
+         "register_op is an explicit parameter observed by the harness; handlers are False or callable and "
+         "auto-discovery does not raise (TypeError paths of register/register_op not modelled).",
+    technique='Lean 4 invariant proof over operation lists + refinement to a set-based reference semantics + '
+              'facts obligation by decide + differential correspondence',
+    ref='DESIGN.md §3 C13')
+RULE = ('type-directed: a class hierarchy is drawn from the families chain / diamond / mixin / virtual (ABC '
+        'registration, __subclasshook__, __instancecheck__ duck types) / virtual diamond / virtual type below '
+        'a real base / builtin subclasses (dict, list, tuple, OrderedDict, set, str, int) / random DAGs, each '
+        'class with or without __dict__ (__slots__) and __iter__, built with types.new_class; 1-3 registries '
+        '(module-level default registry [a deep copy swapped in], Glommer(), Glommer(register_default_types='
+        'False), TargetRegistry(True/False)) are constructed at random points; 0-8 register() calls (case '
+        'classes, builtin and glom duck types; exact in {True, False, omitted}; 0-3 ops with tagged handlers '
+        'or False; user ops) and occasional register_op() calls, with 1-3 lookups after every call on this '
+        'and the other registries, through get_handler(raise_exc=True/False) or real glom(obj,"x") / '
+        'glom(obj,[T]) / glom(obj,"*") / assign / delete; a one-edit stream re-registers one type at every '
+        'position of a valid history; thorough also enumerates all subsets and orders of registrations with '
+        'exact in {True, False} of 12 fixed hierarchies of <= 4 classes with a lookup of every class after '
+        'every registration. non-trivial = the history has a register() call and some lookup is answered '
+        'from the exact table or the type tree; distinct = distinct (classes, registries, actions)')
+TRUSTED = ['isinstance / issubclass / __mro__ tables of each case are computed by the interpreter and '
+           'checked for coherence (tableOK) by the Lean driver; cases failing it are skipped',
+           'auto-discovery results per class are read from glom\'s own auto functions (environment of C13)']
+ASSUMPTIONS = ['handlers are False or callable; auto-discovery functions do not raise',
+               'register_op iterates a set: its order is observed by the harness and passed to the model']
 
 BUILTIN_NAMES = ['object', 'dict', 'OrderedDict', 'list', 'tuple', 'set', 'frozenset', 'str', 'int']
 GLOM_TYPES = ['_AbstractIterable', '_ObjStyleKeys']
@@ -715,6 +755,30 @@ def corpus():
     out.append(_w(M, ['registry:0'], [_reg(0, 'E', [['iterate', 'h:E']]), _reg(0, 'Xx', []),
                                       _reg(0, 'G', [['iterate', 'h:G']]), _look(0, 'iterate', 'E2'),
                                       _reg(0, 'E', [['iterate', 'h:E']]), _look(0, 'iterate', 'E2')]))
+    # incoherent hierarchy (isinstance inherited from a duck metaclass): skipped by the driver, kept as
+    # the counter-example of hypothesis inst_sub (Props/C13.lean)
+    out.append(_w([cls('R0', ['list'], slots=True), cls('R1', ['object'], meta='duck', duck='has_dict'),
+                   cls('R2', ['R0', 'R1'], slots=True), cls('R4', ['object'])], ['registry:0'],
+                  [_reg(0, 'R2', [['keys', 'h:5']]), _reg(0, '_AbstractIterable', [['get', None]]),
+                   _look(0, 'get', 'R4', False)]))
+    # residue of F7 for virtual types (repaired by ce91c93): V2 below V1 and W, registered W, V2, V1, W
+    VD = [cls('P', ['object'], slots=True), cls('V1', ['object'], meta='abc'), cls('W', ['object'], meta='abc'),
+          cls('V2', ['V1', 'W'], meta='abc', virtual=['P'])]
+    out.append(_w(VD, ['registry:0'], [_reg(0, 'W', [['get', 'h:W']]), _reg(0, 'V2', [['get', 'h:V2']]),
+                                       _reg(0, 'V1', [['get', 'h:V1']]), _reg(0, 'W', [['get', 'h:W']]),
+                                       _look(0, 'get', 'P')]))
+    # re-registering a type that is not its own subclass (repaired by 83daf48)
+    out.append(_w([cls('Dd', ['dict'])], ['glommer:1'],
+                  [_reg(0, '_AbstractIterable', [['iterate', 'h:it']]), _look(0, 'get', 'Dd'),
+                   {'a': 'glom', 'reg': 0, 'spec': 'get', 'ty': 'Dd'}]))
+    # a Glommer knows assign / delete (repaired by acb0c91)
+    out.append(_w([cls('Dd', ['dict'])], ['glommer:1'],
+                  [{'a': 'glom', 'reg': 0, 'spec': 'assign', 'ty': 'Dd'}, _look(0, 'delete', 'dict')]))
+    # register_op resets the memo (repaired by 5c57e25)
+    out.append(_w(E, ['registry:1'],
+                  [_reg(0, 'E', [['get', 'h:E']], exact=True), _look(0, 'get', 'E2'),
+                   {'a': 'register_op', 'reg': 0, 'op': 'get', 'auto': 'auto_none', 'exact': False},
+                   _look(0, 'get', 'E2')]))
     p = os.path.join(os.path.dirname(os.path.dirname(os.path.dirname(os.path.abspath(__file__)))),
                      'corpus', 'C13.jsonl')
     if os.path.exists(p):
@@ -731,7 +795,7 @@ def key(case):
 def nontrivial(case, verdict):
     b = verdict.get('branch', '')
     has_reg = any(a['a'] == 'register' for a in case['actions'])
-    return has_reg and ('tree-' in b or 'exact' in b)
+    return has_reg and ('tree-' in b or b in ('exact', 'memo'))
 
 
 def shrink(case):
